@@ -967,7 +967,7 @@ func checkC06() fw.Check {
 								if len(out.flow.Probes) >= 2 || n == 1 {
 									c.Nontrivial(fmt.Sprintf("%s/%d-%d/%s/%s", v.Name, w.first, w.last, b.name, dc.name))
 								}
-								if dc.name == "between-sends" {
+								if dc.name == "between-sends" && len(out.flow.Probes) > 0 {
 									c.Sample(map[string]any{"case": sc.tag, "probes": len(out.flow.Probes), "first_probe_hex": fmt.Sprintf("%x", out.flow.Probes[0].Raw)})
 								}
 								out.e.close()
